@@ -78,41 +78,51 @@ void ls_done(void) { }
 #error "LS_MAX (upper bound on permutation calls) must be defined for FORM_T"
 #endif
 
-static uint64_t ls_in[LS_MAX][5];
-static uint64_t ls_out[LS_MAX][5];
-static unsigned ls_round[LS_MAX];
+/* One small static object per recorded call, selected by a switch on the
+ * (always concrete) call index: CBMC keeps small objects field-sensitive and
+ * resolves the pointer exactly.  One big transcript array is re-encoded on
+ * every update instead (ISAP: 6 GB), and an array of pointers to heap records
+ * loses precision in the value-set analysis (no verdict in 20 min).
+ * ls_records.h is generated per LS_MAX by lib/vlib.py:
+ *     static ls_rec_t ls_r0, ls_r1, ...;  static ls_rec_t *ls_get(unsigned k) { switch (k) {...} } */
+typedef struct { uint64_t in[5]; uint64_t out[5]; unsigned round; } ls_rec_t;
+#include "ls_records.h"
 unsigned ls_n_impl = 0, ls_n_spec = 0;
+static uint64_t ls_y[5];   /* static scratch: one object, not one per call */
 
 void ascon_permute(ascon_state_t *state, uint8_t first_round)
 {
     unsigned k = ls_n_impl;
-    uint64_t y[5];
+    ls_rec_t *r;
     CHECK(k < LS_MAX, "lockstep: transcript capacity LS_MAX large enough");
     ASSUME(k < LS_MAX);
     ls_n_impl = k + 1;
-    ls_to_canon(state, ls_in[k]);
-    ls_round[k] = first_round;
-    y[0] = nondet_u64(); y[1] = nondet_u64(); y[2] = nondet_u64();
-    y[3] = nondet_u64(); y[4] = nondet_u64();
-    ls_out[k][0] = y[0]; ls_out[k][1] = y[1]; ls_out[k][2] = y[2];
-    ls_out[k][3] = y[3]; ls_out[k][4] = y[4];
-    ls_from_canon(state, y);
+    r = ls_get(k);
+    ls_to_canon(state, r->in);
+    r->round = first_round;
+    ls_y[0] = nondet_u64(); ls_y[1] = nondet_u64(); ls_y[2] = nondet_u64();
+    ls_y[3] = nondet_u64(); ls_y[4] = nondet_u64();
+    r->out[0] = ls_y[0]; r->out[1] = ls_y[1]; r->out[2] = ls_y[2];
+    r->out[3] = ls_y[3]; r->out[4] = ls_y[4];
+    ls_from_canon(state, ls_y);
 }
 
 void spec_P(uint64_t x[5], unsigned first_round)
 {
     unsigned k = ls_n_spec;
     int same;
+    ls_rec_t *r;
     CHECK(k < ls_n_impl, "lockstep: model makes no permutation call the code did not make");
     ASSUME(k < ls_n_impl);
     ls_n_spec = k + 1;
-    CHECK(ls_round[k] == first_round, "lockstep: same number of rounds");
-    same = x[0] == ls_in[k][0] && x[1] == ls_in[k][1] && x[2] == ls_in[k][2] &&
-           x[3] == ls_in[k][3] && x[4] == ls_in[k][4];
+    r = ls_get(k);
+    CHECK(r->round == first_round, "lockstep: same number of rounds");
+    same = x[0] == r->in[0] && x[1] == r->in[1] && x[2] == r->in[2] &&
+           x[3] == r->in[3] && x[4] == r->in[4];
     CHECK(same, "lockstep: same permutation input");
-    ASSUME(same && ls_round[k] == first_round);
-    x[0] = ls_out[k][0]; x[1] = ls_out[k][1]; x[2] = ls_out[k][2];
-    x[3] = ls_out[k][3]; x[4] = ls_out[k][4];
+    ASSUME(same && r->round == first_round);
+    x[0] = r->out[0]; x[1] = r->out[1]; x[2] = r->out[2];
+    x[3] = r->out[3]; x[4] = r->out[4];
 }
 
 /* the model must have consumed every call the code made, except trailing
